@@ -8,7 +8,7 @@ namespace C14P
 open Model Model.Pedal
 
 theorem mem_pedalStream (cs : List Control) (thr : Int) (e : Ev) :
-    e ∈ pedalStream cs thr ↔ ∃ c, c ∈ cs ∧ c.number = 64 ∧ e = (c.time, decide (thr < c.value)) := by
+    e ∈ pedalStream cs thr ↔ ∃ c, c ∈ cs ∧ c.number = sustainCC ∧ e = (c.time, decide (thr < c.value)) := by
   unfold pedalStream
   rw [mem_sortBy]
   unfold pedalEvents
@@ -45,7 +45,7 @@ theorem mem_moments (ns : List Note) (cs : List Control) (thr : Int) (i : Nat) (
       omega
     · exact Or.inr ⟨h1, h2⟩
 
-theorem pedalStream_nil_of_no_pedal (cs : List Control) (thr : Int) (h : ∀ c ∈ cs, c.number ≠ 64) :
+theorem pedalStream_nil_of_no_pedal (cs : List Control) (thr : Int) (h : ∀ c ∈ cs, c.number ≠ sustainCC) :
     pedalStream cs thr = [] := by
   have : pedalEvents cs thr = [] := by
     unfold pedalEvents
